@@ -431,7 +431,13 @@ func (c *Ctx) Box(t types.Type, v string) string {
 	name := "box." + sanitize(typeKey(t))
 	if !c.declSet[name] {
 		c.Decl(name, fmt.Sprintf("(declare-fun %s (%s) Int)\n(declare-fun %s (Int) %s)", q(name), s, q("un"+name), s))
-		c.lazy = append(c.lazy, lazyAxiom{q("un" + name), fmt.Sprintf("(assert (forall ((x %s)) (! (= (%s (%s x)) x) :pattern ((%s x)))))", s, q("un"+name), q(name), q(name))})
+		ax := fmt.Sprintf("(assert (forall ((x %s)) (! (= (%s (%s x)) x) :pattern ((%s x)))))", s, q("un"+name), q(name), q(name))
+		c.lazy = append(c.lazy, lazyAxiom{q("un" + name), ax})
+		if _, isStruct := t.Underlying().(*types.Struct); isStruct {
+			// struct values as interface (map) keys: boxing is injective
+			// even when the query never unboxes
+			c.lazy = append(c.lazy, lazyAxiom{q(name), ax})
+		}
 	}
 	return fmt.Sprintf("(%s %s)", q(name), v)
 }
